@@ -555,15 +555,15 @@ def r4(ctx):
         desc="a server-generated incrementing default (IDENTITY, SEQUENCE) with a negative increment is never kept as "
              "implicit sentinel (rows are sorted ascending by the sentinel)")
 def r5(ctx):
-    # the kinds that are matched against a backend capability of the same name and are configurable generators
+    # the default kinds offered as sentinels (keys of the capability table) that are configurable generators
     comp = ctx.index.cls(f"{COMP}::SQLCompiler")
     opts = ctx.index.cls(f"{COMP}::InsertmanyvaluesSentinelOpts")
     chars = ctx.index.cls("sql/base.py::_SentinelDefaultCharacterization")
     ev = Evaluator(ctx.index, symbolic_classes={opts.name, chars.name})
     tab = ev.class_value(comp, "_sentinel_col_non_autoinc_lookup")
     ctx.require(isinstance(tab, dict), "_sentinel_col_non_autoinc_lookup is not a table")
-    same = sorted(k.short for k, v in tab.items() if isinstance(k, Sym) and isinstance(v, Sym) and k.short == v.short)
-    # of those, the ones whose schema object can be configured with an increment
+    same = sorted(k.short for k in tab if isinstance(k, Sym))
+    # of the default kinds that may serve as sentinel, the ones whose schema object can be configured with an increment
     schema = ctx.index.module("sql/schema.py")
     configurable = []
     for kind in same:
